@@ -558,6 +558,42 @@ mut("spread: daily volume divided by len(hours) (revert of fix F26)", ["R-SPREAD
 twin("spread: hours deduplicated before the division", ["R-SPREAD", "R-NARROW", "R-THREAD"],
     [("builders/time_builders.py", "    volume_per_hour = daily_volume / len(set(hours))",
       "    hours = sorted(set(hours))\n    volume_per_hour = daily_volume / len(hours)")])
+twin("twin: the restore loop of rollback in a module-level helper", ["R-TXN", "R-ZIP", "R-MIRROR", "R-MUTDEF", "R-RULE-TXN"],
+     [(MU, """class ModelingUpdate:
+""", """def put_back_replaced_values(replaced_pairs):
+    # Most recent replacement first
+    for previous_value, new_value in reversed(replaced_pairs):
+        if new_value.modeling_obj_container is not None and previous_value.modeling_obj_container is None:
+            new_value.replace_in_mod_obj_container_without_recomputation(previous_value)
+
+
+class ModelingUpdate:
+"""), (MU, """        for previous_value, new_value in reversed(replaced_pairs):
+            if new_value.modeling_obj_container is not None and previous_value.modeling_obj_container is None:
+                new_value.replace_in_mod_obj_container_without_recomputation(previous_value)
+
+    def make_simulation_specific_operations(self):""", """        put_back_replaced_values(replaced_pairs)
+
+    def make_simulation_specific_operations(self):""")])
+mut("mutdef: ids already put back kept in a default argument", ["R-MUTDEF"],
+     [(MU, """class ModelingUpdate:
+""", """def put_back_replaced_values(replaced_pairs, restored_ids=[]):
+    for previous_value, new_value in reversed(replaced_pairs):
+        if new_value.id in restored_ids:
+            continue
+        restored_ids.append(new_value.id)
+        if new_value.modeling_obj_container is not None and previous_value.modeling_obj_container is None:
+            new_value.replace_in_mod_obj_container_without_recomputation(previous_value)
+
+
+class ModelingUpdate:
+"""), (MU, """        for previous_value, new_value in reversed(replaced_pairs):
+            if new_value.modeling_obj_container is not None and previous_value.modeling_obj_container is None:
+                new_value.replace_in_mod_obj_container_without_recomputation(previous_value)
+
+    def make_simulation_specific_operations(self):""", """        put_back_replaced_values(replaced_pairs)
+
+    def make_simulation_specific_operations(self):""")], ["default of restored_ids"])
 mut("noop: hourly == raises on another length (revert of fix F23)", ["R-NOOP"],
     [(EO, """            if len(self.value) != len(other.value):
                 return False
